@@ -10,8 +10,8 @@ From Verif Require Import Str Crc32 Crc32Thm OptGuard Gen_OptGuard OptGuardThm.
 From Coq Require Import ZArith.
 Open Scope N_scope.
 
-(* (0) MAIN.  A support header generated under option set o_s and type headers generated under o_t, compiled
-   in one translation unit: every type header yields a list ds of guard diagnostics (key-set assertion, then one
+(* (0) MAIN.  A support header generated under option set o_s and type headers generated under o_t (with
+   serialization support, i.e. including that support header: see (8')), compiled in one translation unit: every type header yields a list ds of guard diagnostics (key-set assertion, then one
    per option); EITHER the build is rejected (ds <> [], each element a failing "different language options"
    assertion or an undeclared guard symbol) OR o_s ~ o_t on every layout / ABI / wire / support-API / source
    relevant option, where  o_s ~ o_t  :=  forall k, relevant k = true -> lookup_key k o_s = lookup_key k o_t
@@ -57,6 +57,31 @@ Proof.
   destruct ds as [|d ds]; [right; apply same_set_opt_equiv; [assumption | assumption | apply Hiff; reflexivity] | left; discriminate].
 Qed.
 Print Assumptions C17_main_cpp.
+
+(* (0a) "rejected by a static assertion": whenever the diagnostics of (0) are not empty they contain a FAILING
+   ASSERTION (key-set or per-option) carrying the "different language options" message (the scanner requires that
+   text in both assertion statements), never only undeclared symbols -- which is what F-OPTGUARD-KEYSET was.  The
+   message is the generic one: it does not name the option; which option failed is visible to the user only through
+   the compiler's echo of the failing expression (`..._OPTION_<KEY> == <number>`), which is how the check attributes it. *)
+Theorem C17_rejected_by_assertion :
+  (forall (o_s o_t : opts) ds,
+     in_domainb c_domain o_s = true -> in_domainb c_domain o_t = true ->
+     keys_documentedb c_keysets o_s = true -> keys_documentedb c_keysets o_t = true ->
+     compile_full sav c_support_side c_type_side o_s o_t = Some ds -> ds <> [] ->
+     In KeySetMismatch ds \/ exists k, In (Mismatch k) ds) /\
+  (forall (o_s o_t : opts) ds,
+     in_domainb cpp_domain o_s = true -> in_domainb cpp_domain o_t = true ->
+     keys_documentedb cpp_keysets o_s = true -> keys_documentedb cpp_keysets o_t = true ->
+     compile_full sav cpp_support_side cpp_type_side o_s o_t = Some ds -> ds <> [] ->
+     In KeySetMismatch ds \/ exists k, In (Mismatch k) ds).
+Proof.
+  split; intros o_s o_t ds.
+  - exact (reject_by_assertion_general sav c_domain c_support_side c_type_side c_domain_ok c_sides_agree c_keysets o_s o_t ds
+             c_keyset_guarded c_keysets_ok).
+  - exact (reject_by_assertion_general sav cpp_domain cpp_support_side cpp_type_side cpp_domain_ok cpp_sides_agree cpp_keysets o_s o_t ds
+             cpp_keyset_guarded cpp_keysets_ok).
+Qed.
+Print Assumptions C17_rejected_by_assertion.
 
 (* on option sets made of relevant options only (all documented ones are), ~ is equality of the option sets *)
 Theorem C17_equiv_is_same_set :
@@ -235,17 +260,35 @@ Theorem C17_omit_support :
 Proof. exact (conj omit_cpp_no_asserts omit_unguarded_all_undeclared). Qed.
 Print Assumptions C17_omit_support.
 
-(* (9) The string literals of the assertion messages interpolate only literal-safe template expressions
-   (DSDL file name / path, option key), never an option value: documented values contain double quotes
-   (quoted include paths) and free text may contain backslashes, either of which would end or corrupt the
-   literal and break the build of IDENTICAL option sets.  (Also a conjunct of sides_agree, on which (1),
-   (2), (5), (5') rest.) *)
+(* (8') guard_requires_support_header (regenerated fact): in both languages the assertions are rendered exactly
+   when the type header includes a support header (`if not nunavut.support.omit` / the else-branch of
+   `if nunavut.support.omit`).  (0) is therefore a statement about translation units that contain a support
+   header.  Type headers generated with --omit-serialization-support ("pod" headers) assert nothing, whatever
+   the options: the model accepts any mix of them.  They still depend on options (C: array-capacity override
+   macros; C++: container / allocator / constructor-convention types), so pod headers generated under different
+   option sets can be combined silently -- outside the property, which relates type headers to THE support
+   header; recorded in design_notes/C17.md as a limitation, reproduced with the real generator. *)
+Theorem C17_guard_requires_support_header :
+  (sd_unless_omit c_type_side = true /\ sd_unless_omit cpp_type_side = true) /\
+  (forall o, compile_omit sav c_type_side o = Some []) /\ (forall o, compile_omit sav cpp_type_side o = Some []).
+Proof. exact (conj guard_requires_support_header (conj omit_c_no_asserts omit_cpp_no_asserts)). Qed.
+Print Assumptions C17_guard_requires_support_header.
+
+(* (9) The string literals of the assertion messages interpolate only (a) literal-safe template expressions -- the
+   DSDL file name, the option key, the DSDL path with backslash and double quote escaped -- or (b) the raw DSDL
+   path; never an option value (documented values contain double quotes, which would break the build of
+   IDENTICAL option sets; conjunct of sides_agree).  (b) is finding F-OPTGUARD-MSG-PATH: with
+   --embed-auditing-info a directory name containing a double quote or a backslash ends the literal and identical option sets do
+   not build (reproduced; design_notes/C17_message_escape_fix.patch).  Once a side's messages are all of kind (a)
+   (msg_path_escaped, a regenerated fact reported in the evidence) every interpolated expression is literal-safe. *)
 Theorem C17_messages_literal_safe :
   (forall sd, In sd [c_support_side; c_type_side; cpp_support_side; cpp_type_side] ->
-     forall e, In e (sd_msg_exprs sd) -> In e safe_msg_exprs) /\
-  str_in [118; 97; 108; 117; 101] (* value *) safe_msg_exprs = false /\ str_in sav_expr safe_msg_exprs = false.
+     forall e, In e (sd_msg_exprs sd) -> In e safe_msg_exprs \/ In e raw_path_msg_exprs) /\
+  (forall sd, msg_path_escaped sd = true -> forall e, In e (sd_msg_exprs sd) -> In e safe_msg_exprs) /\
+  str_in [118; 97; 108; 117; 101] (* value *) (safe_msg_exprs ++ raw_path_msg_exprs) = false /\
+  str_in sav_expr (safe_msg_exprs ++ raw_path_msg_exprs) = false.
 Proof.
-  split; [|exact value_not_literal_safe].
+  split; [|split; [exact msg_escaped_spec | exact value_not_literal_safe]].
   intros sd Hsd. apply msg_safe_spec.
   exact (proj1 (forallb_forall _ _) all_messages_literal_safe sd Hsd).
 Qed.
